@@ -3,6 +3,7 @@ import ScVerif.C13.WF
 import ScVerif.C13.Async
 import ScVerif.C13.Ctx
 import ScVerif.C13.Errs
+import ScVerif.C13.Cause
 import ScVerif.C13.Select
 import ScVerif.C13.Invoke
 import ScVerif.C13.Unwrap
@@ -50,10 +51,13 @@ def parseCtxItem? (c : CallerCtx) (t : String) : Option CallerCtx :=
   | 'I' :: r => (parseMD? (String.ofList r)).map fun md => { c with incoming := some md }
   | ['D'] => some { c with deadline := true }
   | ['P'] => some { c with values := true }
+  -- `K<n>` / `A<n>`: the call's context (an ancestor of it) ends WITH A CAUSE when the script cancels it / lets its
+  -- deadline pass.  The cause does not enter the transcript (`C13_ended_context_status_of_first_end`).
+  | ['K', n] | ['A', n] => if n.isDigit then some c else none
   | _ => none
 
 /-- The caller's context besides the outgoing metadata: `-` or comma separated `I<md>` (incoming
-metadata), `D` (a far deadline), `P` (peer and an application value). -/
+metadata), `D` (a far deadline), `P` (peer and an application value), `K<n>` / `A<n>` (ends with a cause). -/
 def parseCtx? (s : String) : Option CallerCtx :=
   if s = "" || s = "-" then some {} else (s.splitOn ",").foldlM parseCtxItem? {}
 
@@ -152,6 +156,32 @@ def showOpen : Open → String
   | .internal => "Internal"
   | .ctxEnded .cancel => "Canceled"
   | .ctxEnded .deadline => "DeadlineExceeded"
+
+/-- The cause kinds of the harness: a plain error, a status error, an error wrapping the OTHER context error. -/
+def causeKind? (a : Abort) : Char → Option GoErr
+  | '0' => some (.plain "operator gave up")
+  | '1' => some (.status 5 "gone")
+  | '2' => some (GoErr.errorf "upstream: " (.ctx (match a with | .cancel => .deadline | .deadline => .cancel)))
+  | _ => none
+
+/-- State of the caller's context when a call is opened: `live`, or `cancel` / `deadline`, optionally `+K<n>` (the
+context itself ended with cause kind n) or `+A<n>` (an ancestor did; the context's own plain cancel follows). -/
+def parsePre? (pre : String) : Option CtxState :=
+  match pre.splitOn "+" with
+  | ["live"] => some (ctxRun [])
+  | [b] => (parseAbortName? b).map fun a => ctxRun [⟨a, none⟩]
+  | [b, k] => do
+    let a ← parseAbortName? b
+    match k.toList with
+    | ['K', n] => (causeKind? a n).map fun c => ctxRun [⟨a, some c⟩]
+    | ['A', n] => (causeKind? a n).map fun c => ctxRun [⟨a, some c⟩, ⟨.cancel, none⟩]
+    | _ => none
+  | _ => none
+where
+  parseAbortName? : String → Option Abort
+    | "cancel" => some .cancel
+    | "deadline" => some .deadline
+    | _ => none
 
 def handleCall (op sh out srv fin cli reuse ctx : String) : Option String := do
   let reuse ← parseBool? reuse
@@ -260,15 +290,16 @@ def handleOpt (toks : List String) : Option String :=
   | ["open", via, method, cs, ss, pre] => do
     let cs ← parseBool? cs
     let ss ← parseBool? ss
-    let ctx ← (match pre with
-      | "live" => some none
-      | "cancel" => some (some Abort.cancel)
-      | "deadline" => some (some Abort.deadline)
+    let st ← parsePre? pre
+    let ctx := ctxErr st
+    let o ← (match via with
+      | "stream" => some (Conn.newStream testApi ctx method cs ss)
+      | "invoke" => some (Conn.invoke testApi ctx method)
       | _ => none)
-    match via with
-    | "stream" => pure (showOpen (Conn.newStream testApi ctx method cs ss))
-    | "invoke" => pure (showOpen (Conn.invoke testApi ctx method))
-    | _ => none
+    -- an ended context: the class of the status the entry check builds (`Wrap.contextStatus`) is the outcome
+    match Wrap.contextStatus st with
+    | some s => if codeName s.1 = showOpen o then pure (showOpen o) else pure ("!status " ++ codeName s.1)
+    | none => pure (showOpen o)
   | [op, sh, out, srv, fin, cli, reuse] => handleCall op sh out srv fin cli reuse "-"
   | [op, sh, out, srv, fin, cli, reuse, ctx] => handleCall op sh out srv fin cli reuse ctx
   | _ => none
